@@ -510,6 +510,33 @@ def c15_replay(prop, path):
 PROPS["C15"] = {"run": c15_run, "replay": c15_replay}
 PROPS["C14"] = {"run": c14_run, "replay": c14_replay}
 
+def c06_run(prop, tier, seed):
+    wd = vlib.workdir(prop + ".enum")
+    r1, cases = _cases_from_tlc("MC_Adversary", "MC_Adversary.cfg", wd)
+    if len(cases) < 5000:
+        raise ToolError("vacuity guard: too few adversarial messages enumerated")
+    scen = scenarios.c06(tier, seed, cases)
+    os.environ.setdefault("VH_WALL_LIMIT", "20")
+    res = simcheck.sim_check(prop, tier, seed, scen, "Trace_Adversary", lambda rule: rule.startswith("C06:"),
+                             {"scenarios": 1500, "injected": 1500, "probes": 1500, "probesok": 1000}, RTPS_NOTE, mc=None,
+                             norm=tracenorm.normalise_adversary, jobs=8)
+    res["coverage"]["adversary_messages_enumerated"] = len(cases)
+    res["coverage"]["adversary_messages_injected"] = len(scen)
+    res["coverage"]["states"] += r1["stats"]["distinct"]
+    res["coverage"]["rule"] = ("one case = one message of Adversary.tla (TLC-enumerated: every submessage kind with at most two fields off their default, "
+                               "header / truncation / INFO_* prefix variants) injected into a victim participant with live reliable endpoints in both "
+                               "directions; afterwards a fresh participant probes the victim; validated by TLC against Trace_Adversary.tla")
+    res["assumptions"].append("heap usage is measured by a counting global allocator of the harness process (all participants of the simulation share it)")
+    return res
+
+
+def c06_replay(prop, path):
+    return simcheck.sim_replay(prop, path, "Trace_Adversary", norm=tracenorm.normalise_adversary)
+
+
+PROPS["C06"] = {"run": c06_run, "replay": c06_replay}
+
+
 
 # ------------------------------------------------------------------------------------------
 # C33: listener dispatch, StatusWait/MC_Dispatch enumerated by TLC, each configuration raised in the simulation
